@@ -61,7 +61,21 @@ def run(chk, scratch):
         esc = [s for s in scen if s["escapes"]]
         ok = [s for s in scen if not s["escapes"]]
         compound = [s for s in scen if s["kind"] == "nested" and s["ext"] != "zip" and s["stem"] == ".."]
-        scen = rnd.sample(esc, 700) + rnd.sample(ok, 500) + rnd.sample(compound, 120)
+        # boundary class, always run: the entry resolves to the destination itself or exactly to its parent, under a relative destination
+        def cleaned(comps):
+            out = []
+            for c in comps:
+                if c in ("", "."):
+                    continue
+                if c == ".." and out and out[-1] != "..":
+                    out.pop()
+                else:
+                    out.append(c)
+            return out
+        boundary = [s for s in scen if s["destShape"] in ("dot", "rel", "dotdot", "dotdot2") and cleaned(s["comps"]) in ([], [".."])]
+        rnd.shuffle(boundary)
+        scen = rnd.sample(esc, 700) + rnd.sample(ok, 500) + rnd.sample(compound, 120) + boundary[:250]
+        chk.cov["boundary_scenarios_entry_is_destination_or_its_parent"] = len(boundary[:250])
     chk.cov["nested_archives_with_compound_extension"] = sum(1 for s in scen if s["kind"] == "nested" and s["ext"] != "zip")
     # archives with chained symbolic-link entries (ZipLinks.tla): names lexically inside, real locations possibly not
     rl = vlib.run_tlc(scratch, [SPEC], "ZipLinks", "ZipLinks.cfg", workers=1, timeout=300, fast=True)
